@@ -1,1 +1,21 @@
-From WT Require Import Base.Wrap.
+(** * C20 — generate produces a complete, self-consistent file with the requested layout.
+    The file is the per-archive batch update of the point lists generate prints ([generate_cmd]);
+    the constraints on the printed lists themselves (completeness, bounds, coarse = sum of fully
+    covered finer slots) are checked on every run against the real command's output. *)
+From WT Require Import Base.Wrap Base.ListX Model.Time Model.Ring Model.Update Model.Handle Model.Cmd Proofs.CmdProofs.
+
+Theorem C20_refuses_existing F m xff layout pl now : generate_cmd F true m xff layout pl now = (StErr, None).
+Proof. exact (generate_refuses_existing F m xff layout pl now). Qed.
+Print Assumptions C20_refuses_existing.
+
+Theorem C20_header_as_requested F m xff layout pl now h' :
+  generate_cmd F false m xff layout pl now = (StOk, Some h') -> hd_method h' = m /\ hd_xff h' = xff.
+Proof. exact (generate_header F m xff layout pl now h'). Qed.
+Print Assumptions C20_header_as_requested.
+
+Theorem C20_nofill_every_slot_empty F m xff layout now h :
+  create m xff layout = Some h ->
+  exists h', generate_cmd F false m xff layout (map (fun _ => []) layout) now = (StOk, Some h') /\
+             hd_disk h' = create_arcs layout /\ hd_hdr_on_disk h' = true.
+Proof. exact (generate_nofill_empty F m xff layout now h). Qed.
+Print Assumptions C20_nofill_every_slot_empty.
